@@ -36,7 +36,7 @@ PROPS["C11"] = dict(
                  "an encoder that returns a non-OK status makes the case vacuous (counted), not a failure",
                  "clang ASan + UBSan (bounds, pointer-overflow, null, object-size ...) report any out-of-buffer access on exact-size heap blocks"],
     engines=[pbt("c11_encodings",
-                 quick=dict(cases=9000, size=150, enum=1, procs=4),
+                 quick=dict(cases=20000, size=150, enum=1, procs=4),
                  thorough=dict(cases=45000, size=300, enum=2, procs=16))],
     min_evaluations=dict(quick=20000, thorough=400000),
 )
@@ -60,7 +60,7 @@ PROPS["C12"] = dict(
     assumptions=["the reference codecs in ref/enc_ref.hpp implement the Parquet encodings specification",
                  "INT32 delta streams are compared modulo 2^32 (both delta conventions decode to the same values)"],
     engines=[pbt("c12_spec",
-                 quick=dict(cases=10000, size=150, procs=4),
+                 quick=dict(cases=25000, size=150, procs=4),
                  thorough=dict(cases=50000, size=300, procs=16))],
     min_evaluations=dict(quick=20000, thorough=400000),
 )
@@ -135,7 +135,7 @@ PROPS["C09"] = dict(
           "Non-trivial: a literal stretch > 60 bytes, or a repetitive stretch >= 68 bytes, or a back-reference that crosses the 64 KiB line "
           "of an input > 64 KiB. Distinct = FNV-1a-64 of the serialised case."),
     assumptions=["compress_bound(n) is the advertised bound; src/dst pointers are non-NULL also for empty inputs"],
-    engines=[pbt("c09_codecs", quick=dict(cases=700, size=100, procs=4), thorough=dict(cases=4000, size=200, procs=16))],
+    engines=[pbt("c09_codecs", quick=dict(cases=2000, size=100, procs=4), thorough=dict(cases=4000, size=200, procs=16))],
     min_evaluations=dict(quick=1500, thorough=30000),
 )
 
@@ -158,7 +158,7 @@ PROPS["C10"] = dict(
           "after a complete output, LZ4 end-of-block rule violations on decode."),
     assumptions=["offset 0 is invalid per the LZ4 block format document although liblz4 does not check it",
                  "non-minimal Snappy literal length encodings are valid (libsnappy accepts them; cross-checked per case)"],
-    engines=[pbt("c10_formats", libs=["rapidcheck", "snappy", "lz4"], quick=dict(cases=5000, size=100, procs=4), thorough=dict(cases=30000, size=200, procs=16))],
+    engines=[pbt("c10_formats", libs=["rapidcheck", "snappy", "lz4"], quick=dict(cases=12000, size=100, procs=4), thorough=dict(cases=30000, size=200, procs=16))],
     min_evaluations=dict(quick=10000, thorough=200000),
 )
 
@@ -198,7 +198,7 @@ PROPS["C20"] = dict(
           ">= 2 blocks and >= 2 distinct inserted hashes. xxh64 case = (segment list, seed, misalignment); non-trivial: length >= 32 and not a "
           "multiple of 32. Distinct = FNV-1a-64 of the serialised case."),
     assumptions=["values are hashed as their PLAIN encoding (little-endian fixed width / raw bytes) with seed 0"],
-    engines=[pbt("c20_bloom", libs=["rapidcheck", "xxhash"], quick=dict(cases=4000, size=100, enum=1, procs=4), thorough=dict(cases=25000, size=200, enum=2, procs=16))],
+    engines=[pbt("c20_bloom", libs=["rapidcheck", "xxhash"], quick=dict(cases=10000, size=100, enum=1, procs=4), thorough=dict(cases=25000, size=200, enum=2, procs=16))],
     min_evaluations=dict(quick=8000, thorough=200000),
 )
 
@@ -221,9 +221,9 @@ PROPS["C15"] = dict(
           "match < p <= limit, non-overlapping memcpy, wrapping prefix sums, fixed-width unpackers get exactly N*width/8 input bytes. Non-trivial: count not a "
           "multiple of the variant's byte lane count and (misaligned start or end flush against the guard page)."),
     assumptions=["the scalar definitions in harness/c15_simd.cpp are the kernels' specification (they mirror dispatch.c's scalar fallbacks, which are themselves checked under the 'none' mask)"],
-    engines=[pbt("c15_simd", variant="prod", quick=dict(cases=6000, size=100, enum=1, procs=2), thorough=dict(cases=30000, size=100, enum=2, procs=4))] +
+    engines=[pbt("c15_simd", variant="prod", quick=dict(cases=15000, size=100, enum=1, procs=2), thorough=dict(cases=30000, size=100, enum=2, procs=4))] +
             [pbt("c15_simd", variant="prod", name="c15_dispatch_%d" % i, env={"CARQUET_VERIF_CPU_CAP": m},
-                 quick=dict(cases=1500, size=100, enum=1, procs=1), thorough=dict(cases=10000, size=100, enum=2, procs=1)) for i, m in enumerate(_MASKS)],
+                 quick=dict(cases=3000, size=100, enum=1, procs=1), thorough=dict(cases=10000, size=100, enum=2, procs=1)) for i, m in enumerate(_MASKS)],
     min_evaluations=dict(quick=300000, thorough=1500000),
 )
 
@@ -264,7 +264,7 @@ PROPS["C17"] = dict(
     rule=("tree case = (schema tree, per-leaf level entries and values, I/O mode); non-trivial: depth >= 2 with at least one OPTIONAL or REPEATED interior node. "
           "builder case = list of (type, repetition, type length, logical type) columns; non-trivial: >= 64 columns (growth past the initial capacity)."),
     assumptions=["leaf names used for find_column are unique in the schema"],
-    engines=[pbt("c17_schema", libs=["rapidcheck", "snappy", "lz4"], quick=dict(cases=1200, size=60, enum=1, procs=4), thorough=dict(cases=8000, size=100, enum=2, procs=16, timeout=7200))],
+    engines=[pbt("c17_schema", libs=["rapidcheck", "snappy", "lz4"], quick=dict(cases=2500, size=60, enum=1, procs=4), thorough=dict(cases=8000, size=100, enum=2, procs=16, timeout=7200))],
     min_evaluations=dict(quick=5000, thorough=150000),
 )
 
@@ -285,7 +285,7 @@ PROPS["C02"] = dict(
           "more rows than batch_size and a page whose row count is not a multiple of batch_size."),
     assumptions=["read_batch(k) may return fewer than k rows ('up to'); only content, order, totals, skip = min(n, remaining) and remaining() are asserted",
                  "level buffers are omitted only for REQUIRED columns", "the null bitmap polarity is not imposed, only required to be the same everywhere"],
-    engines=[pbt("c02_histories", libs=["rapidcheck", "snappy", "lz4"], quick=dict(cases=1200, size=60, enum=1, procs=6), thorough=dict(cases=12000, size=100, enum=2, procs=16))],
+    engines=[pbt("c02_histories", libs=["rapidcheck", "snappy", "lz4"], quick=dict(cases=2500, size=60, enum=1, procs=6), thorough=dict(cases=12000, size=100, enum=2, procs=16))],
     min_evaluations=dict(quick=6000, thorough=150000),
 )
 
@@ -303,7 +303,7 @@ PROPS["C03"] = dict(
     rule=("case = (file, history ops, batch size, projection, verify_checksums). Non-trivial: some chunk has >= 2 pages, the file mixes zero-copy-eligible "
           "(REQUIRED, fixed-width, uncompressed, PLAIN) and non-eligible columns, and batch_size exceeds the smallest page."),
     assumptions=["transcripts contain only observable results (return values, levels, dense values, bitmaps, statuses), never addresses"],
-    engines=[pbt("c03_iomodes", libs=["rapidcheck", "snappy", "lz4"], quick=dict(cases=450, size=60, procs=8), thorough=dict(cases=8000, size=100, procs=16))],
+    engines=[pbt("c03_iomodes", libs=["rapidcheck", "snappy", "lz4"], quick=dict(cases=1500, size=60, procs=8), thorough=dict(cases=8000, size=100, procs=16))],
     min_evaluations=dict(quick=2500, thorough=100000),
 )
 
@@ -325,7 +325,7 @@ PROPS["C16"] = dict(
           "min or max. helpers: non-trivial = >= 2 distinct values. Distinct = FNV-1a-64 of the serialised case."),
     assumptions=["value order: signed for INT32/INT64, IEEE for FLOAT/DOUBLE, unsigned lexicographic for BYTE_ARRAY/FIXED_LEN_BYTE_ARRAY",
                  "builder bounds are accepted under IEEE comparison ignoring NaN or under the total order 'NaN greatest, -0 = +0' that the builder documents"],
-    engines=[pbt("c16_stats", libs=["rapidcheck", "snappy", "lz4"], quick=dict(cases=1500, size=60, procs=6), thorough=dict(cases=15000, size=100, procs=16))],
+    engines=[pbt("c16_stats", libs=["rapidcheck", "snappy", "lz4"], quick=dict(cases=3000, size=60, procs=6), thorough=dict(cases=15000, size=100, procs=16))],
     min_evaluations=dict(quick=6000, thorough=150000),
 )
 
@@ -346,7 +346,7 @@ PROPS["C01"] = dict(
     rule=("case = (schema, table, codec, page size, row-group layout, per-column batch partition, interleaving seed, no-levels flags, writer kind, read mode, read batch). "
           "Non-trivial: an OPTIONAL column with both null and non-null rows and (two batches in one page, or a chunk larger than the page size, or two row groups)."),
     assumptions=["write_batch is never called with zero rows or a NULL value pointer", "all columns of a row group receive the same number of rows (documented precondition)"],
-    engines=[pbt("c01_roundtrip", libs=_W_LIBS, only="roundtrip", quick=dict(cases=500, size=60, procs=8), thorough=dict(cases=15000, size=100, procs=16))],
+    engines=[pbt("c01_roundtrip", libs=_W_LIBS, only="roundtrip", quick=dict(cases=1500, size=60, procs=8), thorough=dict(cases=15000, size=100, procs=16))],
     min_evaluations=dict(quick=3000, thorough=150000),
 )
 def _c04_fuzz_args(runs, with_seeds=True):
@@ -398,7 +398,7 @@ PROPS["C05"] = dict(
     technique="property-based differential testing (rapidcheck): carquet writer vs independent specification reader/validator; double-write determinism",
     rule="same generator and non-trivial rule as C01",
     assumptions=["parquet.thrift: total_uncompressed_size and total_compressed_size include page headers; RowGroup.total_byte_size is the uncompressed column data size"],
-    engines=[pbt("c01_roundtrip", libs=_W_LIBS, only="structure", name="c05_structure", quick=dict(cases=500, size=60, procs=8), thorough=dict(cases=15000, size=100, procs=16))],
+    engines=[pbt("c01_roundtrip", libs=_W_LIBS, only="structure", name="c05_structure", quick=dict(cases=1200, size=60, procs=8), thorough=dict(cases=15000, size=100, procs=16))],
     min_evaluations=dict(quick=3000, thorough=150000),
 )
 PROPS["C16"]["engines"].append(pbt("c01_roundtrip", libs=_W_LIBS, only="page_stats", name="c16_page_stats", quick=dict(cases=250, size=60, procs=4), thorough=dict(cases=5000, size=100, procs=8)))
@@ -419,7 +419,7 @@ PROPS["C14"] = dict(
     rule=("damage case = (file, read batch size, seed); evaluations count damaged reads (file x damage x mode). Non-trivial: the file has a damaged page that is not the first "
           "page of its chunk, or a dictionary page, or a compressed body. crc_fn case = (bytes, alignment, cut points); non-trivial: length >= 8 and not a multiple of 8."),
     assumptions=["only pages that carry a CRC are damaged (carquet's writer always writes one)", "damage is confined to page bodies; headers and footer are out of this property's scope"],
-    engines=[pbt("c14_crc", libs=["rapidcheck", "snappy", "lz4"], quick=dict(cases=40, size=60, enum=1, procs=8), thorough=dict(cases=600, size=100, enum=2, procs=16))],
+    engines=[pbt("c14_crc", libs=["rapidcheck", "snappy", "lz4"], quick=dict(cases=120, size=60, enum=1, procs=8), thorough=dict(cases=600, size=100, enum=2, procs=16))],
     min_evaluations=dict(quick=100000, thorough=2000000),
 )
 
@@ -439,7 +439,7 @@ PROPS["C18"] = dict(
     rule=("evaluations count (file, fault point[, mode]) executions. Non-trivial: prefixes - a cut inside the footer, between footer and length or inside the trailing magic; sink - a "
           "failure within the last 4096 bytes under full buffering (absorbed by stdio until close); stdio - at least 4 stream operations; abort - at least 2 calls."),
     assumptions=["open_buffer is never given size 0 with a NULL pointer; a zero-length prefix is passed as a valid pointer of size 0"],
-    engines=[pbt("c18_truncation", libs=["rapidcheck", "snappy", "lz4"], ldflags=["-Wl,--wrap=fwrite,--wrap=fflush,--wrap=fclose"], quick=dict(cases=24, size=60, procs=8), thorough=dict(cases=400, size=100, procs=16))],
+    engines=[pbt("c18_truncation", libs=["rapidcheck", "snappy", "lz4"], ldflags=["-Wl,--wrap=fwrite,--wrap=fflush,--wrap=fclose"], quick=dict(cases=200, size=60, procs=8), thorough=dict(cases=400, size=100, procs=16))],
     min_evaluations=dict(quick=20000, thorough=400000),
 )
 
